@@ -10,7 +10,7 @@ PROP = {
          'every occurrence of the low-volume sites (queue file, stable pointer, candidate file, rotation) and ~400 seeded occurrences of each high-volume site (position and cursor puts, bitcask file writes), plus second-level crashes during recovery for one point in seven. Recovery oracle in a fresh child: opens without panic/hang; stable height >= last '
          'acked promotion and on the chain; heights 0..stable readable by height and hash with parent links; every account field of the universe (balance, code, storage, assets, equities, '
          'profile, votes, signers, roots, versions, raw records) equals the reference observation of exactly that block; version trie agrees with the accounts; candidate file knows every '
-         'candidate; then the whole history is re-delivered: final head, stable and state equal the never-stopped node. distinct = (site class, phase, plan, occurrence class) The plan ends with blocks on the final head that replay a transaction of an earlier block (refused by the never-stopped node): the restarted node must refuse them too; a quarter of the main blocks is empty.',
+         'candidate; then the whole history is re-delivered: final head, stable and state equal the never-stopped node. distinct = (site class, phase, plan, occurrence class) The plan ends with blocks on the final head that replay a transaction of an earlier block (refused by the never-stopped node): the restarted node must refuse them too; a quarter of the main blocks is empty. A recovered account field that holds the value of an earlier main-chain block (and of no later one) is reported as account-state-older-than-stable-block, apart from records that are ahead of the stable block.',
  'assumptions': ['process death with the page cache intact (kill -9), not power loss: data handed to write() survives, fsync ordering is not modelled',
                  'the child waits for the write-behind queue before each block insertion (transfer-asset txs read an index that goroutine maintains); crash points inside the write-behind goroutine are still hit',
                  'replay of a witness regenerates the plan from (seed, plan variant)'],
